@@ -33,6 +33,17 @@ def variants(code, rng):
 
 EXOTIC = ["", " ", "é", "日本", "\U0001F600", "a\"b\\c", "\n", "%s{}{:?}", "error", "Extension",
           "invalid", "temporarily_unavailable", "server_error", "interaction_required", "null", "0"]
+# codes that real servers send and that are NOT defined by the RFCs the crate implements: every one is an extension
+# code, preserved verbatim, in every family (vendor vocabularies of Microsoft, Google, GitHub, Okta, Auth0, Keycloak,
+# OpenID Connect, RFC 8707 / 9126 / 9449 ...)
+VENDOR_CODES = ["authorization_declined", "bad_verification_code", "incorrect_client_credentials", "redirect_uri_mismatch", "incorrect_device_code",
+                "device_flow_disabled", "unsupported_response_type", "login_required", "consent_required", "account_selection_required",
+                "invalid_target", "invalid_resource", "invalid_dpop_proof", "use_dpop_nonce", "invalid_request_uri", "invalid_request_object",
+                "request_not_supported", "request_uri_not_supported", "registration_not_supported", "unmet_authentication_requirements",
+                "invalid_token", "insufficient_scope", "mfa_required", "unverified_email", "too_many_attempts", "blocked_user", "invalid_otp",
+                "password_leaked", "requires_validation", "user_not_found", "not_found", "forbidden", "rate_limit_exceeded", "polling_too_frequently",
+                "code_expired", "token_expired", "expired", "denied", "cancelled", "canceled", "user_cancelled", "pending", "authorization-pending",
+                "slowdown", "slow-down", "accessdenied", "access-denied", "expiredtoken", "unsupported_token", "invalid_token_type"]
 TEXTS = [None, "", "desc", "Still waiting for user", "café \U0001F600", "a: b (see c)", "x\ny", "\"q\"", " (see "]
 
 
@@ -50,6 +61,12 @@ def gen(tier, rng):
                     out.append(("C14 %s %s %s %s" % (fam, C.tb(code), C.topt(d), C.topt(u)), "defined"))
         for e in EXOTIC:
             out.append(("C14 %s %s %s %s" % (fam, C.tb(e), C.topt(rng.choice(TEXTS)), C.topt(rng.choice(TEXTS))), "exotic"))
+        for e in VENDOR_CODES:
+            out.append(("C14 %s %s %s %s" % (fam, C.tb(e), C.topt(rng.choice(TEXTS)), C.topt(rng.choice(TEXTS))), "vendor-code"))
+        # descriptions / URIs that repeat the code, one another, or look like part of the rendering
+        for code in CODES + ["custom_code", ""]:
+            for d, u in ((code, None), (code, code), (None, code), (code.upper(), None), (code + " ", None), (": " + code, "(see " + code + ")"), ("x", "x")):
+                out.append(("C14 %s %s %s %s" % (fam, C.tb(code), C.topt(d), C.topt(u)), "description-repeats-code"))
         n = 300 if tier == "quick" else 20000
         alphabet = "abcdefghijklmnopqrstuvwxyz_ABCDEFG -é日"
         for _ in range(n):
